@@ -8,24 +8,33 @@ EXTENDS NodeList, Integers
 CONSTANT Indexed      \* [document -> BOOLEAN]: does the document carry node indexes
 
 IsRoot(n)   == Idx(n) = 1                 \* the document node is node 1 of its document
-RawOwner(n) == IF IsRoot(n) THEN 0 ELSE Doc(n)     \* DOM: getOwnerDocument() of a document is null
-NormOwner(n) == Doc(n)                    \* "normalize so that a document node owns itself"
+(* getNormalizedOwner: "normalize so that a document node owns itself" (DOM's owner of a document is null) *)
+NormOwner(n) == Doc(n)
 NodeIndexed(n) == Indexed[Doc(n)]
 
-(* struct DocumentPredicate: "always order a document node, or a node from another document,   *)
-(* after another node"                                                                          *)
-DocPred(n1, n2) == IF IsRoot(n1) /\ IsRoot(n2) THEN TRUE ELSE RawOwner(n1) # RawOwner(n2)
-(* struct IndexPredicate / ExecutionContextPredicate; DOMServices::isNodeAfter is modelled by   *)
-(* the index comparison (DomOrder.tla shows the structural walk computes the same relation)     *)
-AfterPred(n1, n2) == IF DocPred(n1, n2) THEN TRUE ELSE Idx(n1) > Idx(n2)
+(* struct DocumentPredicate: "always order a node from another document after another node"      *)
+DocPred(n1, n2) == NormOwner(n1) # NormOwner(n2)
+(* struct IndexPredicate *)
+IndexPred(n1, n2) == IF DocPred(n1, n2) THEN TRUE ELSE Idx(n1) > Idx(n2)
+(* struct ExecutionContextPredicate: a document node precedes the nodes it owns; otherwise         *)
+(* DOMSupport::isNodeAfter, modelled by the index comparison                                       *)
+CtxPred(n1, n2) == IF DocPred(n1, n2) THEN TRUE
+                   ELSE IF IsRoot(n1) THEN FALSE
+                   ELSE IF IsRoot(n2) THEN TRUE
+                   ELSE Idx(n1) > Idx(n2)
+AfterPred(mode, n1, n2) == IF mode = "linearIndex" THEN IndexPred(n1, n2) ELSE CtxPred(n1, n2)
 
-(* findInsertionPointLinearSearch: [ins |-> insert?, at |-> insertion position] *)
-RECURSIVE Linear(_, _, _)
-Linear(list, n, cur) ==
+(* findInsertionPointLinearSearch: [ins |-> insert?, at |-> insertion position]; the nodes of     *)
+(* one document stay together: once the node's own document has been seen, the first node of      *)
+(* another document ends the search                                                                *)
+RECURSIVE Linear(_, _, _, _, _)
+Linear(list, n, cur, mode, seen) ==
   IF cur > Len(list) THEN [ins |-> TRUE, at |-> cur]
   ELSE IF list[cur] = n THEN [ins |-> FALSE, at |-> cur]
-  ELSE IF ~AfterPred(n, list[cur]) THEN [ins |-> TRUE, at |-> cur]
-  ELSE Linear(list, n, cur + 1)
+  ELSE IF NormOwner(list[cur]) # NormOwner(n)
+       THEN (IF seen THEN [ins |-> TRUE, at |-> cur] ELSE Linear(list, n, cur + 1, mode, FALSE))
+  ELSE IF ~AfterPred(mode, n, list[cur]) THEN [ins |-> TRUE, at |-> cur]
+  ELSE Linear(list, n, cur + 1, mode, TRUE)
 
 (* the while loop of findInsertionPointBinarySearch; state = first, last, current, curIdx, ins *)
 RECURSIVE BinLoop(_, _, _, _, _, _)
@@ -53,14 +62,14 @@ Binary(list, n) ==
 InsAt(list, pos, n) == SubSeq(list, 1, pos - 1) \o <<n>> \o SubSeq(list, pos, Len(list))
 
 Strategy(list, n) ==
-  IF NodeIndexed(n) /\ RawOwner(n) = NormOwner(list[1])
+  IF NodeIndexed(n) /\ NormOwner(n) = NormOwner(list[1])
   THEN IF NormOwner(list[1]) = NormOwner(list[Len(list)]) THEN "binary" ELSE "linearIndex"
   ELSE "linearStructural"
 
 AddNodeInDocOrder(list, n) ==
   IF Len(list) = 0 THEN <<n>>
   ELSE IF list[Len(list)] = n THEN list
-  ELSE LET r == IF Strategy(list, n) = "binary" THEN Binary(list, n) ELSE Linear(list, n, 1) IN
+  ELSE LET r == IF Strategy(list, n) = "binary" THEN Binary(list, n) ELSE Linear(list, n, 1, Strategy(list, n), FALSE) IN
        IF r.ins THEN InsAt(list, r.at, n) ELSE list
 
 RECURSIVE AddEach(_, _, _)
@@ -72,18 +81,11 @@ AddNodesInDocOrder(list, src, sflag) ==
   ELSE IF sflag = "doc" THEN (IF Len(list) = 0 THEN src ELSE AddEach(list, src, 1))
   ELSE (IF Len(list) = 0 THEN Reverse(src) ELSE AddEach(list, Reverse(src), 1))
 
-(* ---- deviations of the algorithm itself from the abstract contract (known findings) ------- *)
-(* KD_rootAfter: a document node added to a list that already holds nodes of its document is    *)
-(* not recognised as belonging to it (its owner is null) and is ordered after them.             *)
-KD_rootAfter(list, n) == IsRoot(n) /\ n \notin Range(list) /\ \E i \in 1..Len(list) : Doc(list[i]) = Doc(n)
-(* KD_interleave: a node whose document is not the last group of a multi-document list and that *)
-(* follows all listed nodes of its document is appended at the very end.                        *)
-KD_interleave(list, n) ==
-  /\ n \notin Range(list)
-  /\ \E i \in 1..Len(list) : Doc(list[i]) = Doc(n)
-  /\ Doc(list[Len(list)]) # Doc(n)
-  /\ \A i \in 1..Len(list) : Doc(list[i]) = Doc(n) => Idx(list[i]) < Idx(n)
-KnownDeviation(list, n) == KD_rootAfter(list, n) \/ KD_interleave(list, n)
+(* ---- deviations of the algorithm itself from the abstract contract --------------------------- *)
+(* None are known for the current tree.  (Two were found with this model and repaired in /repo:    *)
+(* a document node ordered after the nodes of its document, and interleaving of two documents -    *)
+(* known_findings.jsonl, C12 rootAfter / interleave, status fixed.)                                *)
+KnownDeviation(list, n) == FALSE
 
 (* does iterating src into list hit a deviating insertion (or continue from one)? *)
 RECURSIVE EachDeviates(_, _, _)
